@@ -61,6 +61,8 @@ beyond_harness!(kb1_fast_back_beyond_window_w100, 100);
 beyond_harness!(kb1_fast_back_beyond_window_w88, 88);
 beyond_harness!(kb1_fast_back_beyond_window_w87, 87);
 
-// (A harness for a self-overlapping match that starts in the previous pass of the window and runs into the current one —
-// length 40 at distance 2 with one byte written, both real copy primitives — did not finish in 1800 s and is not kept;
-// the seeded change C19e lives there and is not detected.)
+// (Harnesses for a self-overlapping match that starts in the previous pass of the window and runs into the current one, with
+// both real copy primitives, did not finish: length 40 at distance 2, symbolic window, 1800 s; length 6 at distance 2 with
+// only the ten bytes the match can touch symbolic, field-sensitive window array and a tight unwindset, 900 s — CBMC does not
+// see that the control flow of the fast loop is concrete and explores every copy site in every iteration.  Not kept; the
+// seeded change C19e lives there and is not detected.)
